@@ -162,7 +162,7 @@ func init() {
 	}})
 }
 
-var journalWeights = Weights{"identity-hostile": 3, "write-new": 14, "modify": 10, "add": 18, "commit": 22, "switch": 8, "switch-c": 6, "reset": 12, "reset-invalid": 2,
+var journalWeights = Weights{"commit-repeat-message": 3, "identity-hostile": 3, "write-new": 14, "modify": 10, "add": 18, "commit": 22, "switch": 8, "switch-c": 6, "reset": 12, "reset-invalid": 2,
 	"branch": 4, "branch-r": 5, "branch-d": 4, "tz": 3, "rm": 2}
 
 // ---------------------------------------------------------------- C14
